@@ -79,25 +79,9 @@ FP = [bytes([1]) * 32, bytes([2]) * 32]
 # ---------------------------------------------------------------------------------------------
 # signatures of the open known findings
 
-FAMILY_POOLED = ("mix:idle", "mix:post-release", "reuse:idle-bytes", "reuse:post-release")
-FAMILY_PARTIAL = ("reuse:partial-surplus",)
-
-
-def sig_stale_parsed_while_pooled(case, params):
-    """Every failure of the case is the known family: a message parsed while its connection sat in the pool
-    (the bytes arrived while idle, or followed the end of the previous response in the same read) was
-    delivered to a later request / that connection was handed out again."""
-    kinds = case.get("kinds") or []
-    return bool(kinds) and all(k in FAMILY_POOLED for k in kinds)
-
-
-def sig_partial_surplus_reused(case, params):
-    kinds = case.get("kinds") or []
-    return bool(kinds) and all(k in FAMILY_PARTIAL for k in kinds)
-
-
-SIGNATURES = {"stale_parsed_while_pooled": sig_stale_parsed_while_pooled,
-              "partial_surplus_reused": sig_partial_surplus_reused}
+# both former findings (C06-stale-response-from-pool, C06-partial-surplus-reused) are fixed in /repo: no failure
+# of this property is expected any more, nothing is suppressed
+SIGNATURES: dict = {}
 
 
 def build_model():
@@ -714,18 +698,12 @@ def check_case(ctx, exe, case, suite, res=None, ans=None):
     kinds = sorted({k for k, _ in res["violations"]})
     for k in kinds:
         ctx.count("oracle:" + k)
-    # one report per family of failures, so that a history showing two known findings at once is still
-    # recognised, while any failure outside the known families is reported on its own
-    families = {}
-    for k, t in res["violations"]:
-        fam = ("pooled" if k in FAMILY_POOLED else "partial" if k in FAMILY_PARTIAL else "other")
-        families.setdefault(fam, []).append((k, t))
-    for fam, items in sorted(families.items()):
+    if kinds:
         vcase = dict(case)
-        vcase["kinds"] = sorted({k for k, _ in items})
+        vcase["kinds"] = kinds
         vcase["suite"] = suite
-        text = "; ".join(t for _, t in items[:3])
-        ctx.violation(vcase, f"{vcase['kinds']}: {text}")
+        text = "; ".join(t for _, t in res["violations"][:3])
+        ctx.violation(vcase, f"{kinds}: {text}")
     return kinds, diff
 
 
@@ -1042,7 +1020,9 @@ def run(ctx):
         exe = None      # the property oracle does not need the model: keep searching for a concrete failing history
     # corpus first
     corpus = []
-    for p in sorted(glob.glob(os.path.join(fw.VERIF, "corpus", "C06", "*.json"))):
+    # the replays of the fixed findings first
+    for p in sorted(glob.glob(os.path.join(fw.VERIF, "corpus", "C06", "*.json")),
+                    key=lambda q: (not os.path.basename(q).startswith("fixed-"), q)):
         payload = json.load(open(p))
         corpus.append(payload.get("case", payload))
     ran = run_batch(ctx, exe, [c for c in corpus if not is_ext(c)], "corpus")
